@@ -5,7 +5,7 @@ import ast
 
 from sa.astx import NotConst, call_attr, call_name, const_eval, lincmp, src, walk_local
 from sa.selftest import Mutant, Silent
-from sa.props._lib_j import body_always_entered, run_sections, all_paths, asserted_is, edge_asserts, is_self_attr, no_exc, node_calls, normal_exits, params, resolve
+from sa.props._lib_j import leaf_values, rsrc, body_always_entered, normalise, run_sections, all_paths, asserted_is, edge_asserts, is_self_attr, no_exc, node_calls, normal_exits, params, resolve
 
 PROPERTY = "C53"
 LOG = "python/logfile.py"
@@ -25,7 +25,9 @@ EXPLANATION = (
     "under-estimates only), DailyLogFile. "
     "Every anchor function is also checked to be entered on every call (no memoising/wrapping decorator, duplicate definition or rebinding). "
 )
-ASSUMPTIONS = ["os.rename is atomic; glob returns every rotated file", "LogFile is used by one thread at a time (threadable.synchronize)"]
+ASSUMPTIONS = [
+    "the rules read a normalised view of the anchored modules (sa/props/_lib_j.Normaliser): private helpers expanded at their call sites, module constants and single-assignment pure temporaries substituted, loops over constant tuples unrolled; evaluation order inside one statement is not modelled",
+   "os.rename is atomic; glob returns every rotated file", "LogFile is used by one thread at a time (threadable.synchronize)"]
 
 
 def _fmt_pair(e):
@@ -113,12 +115,15 @@ def _s_listlogs(ctx, S):
                   "listLogs() can return identifiers that are not sorted ascending (no sort() dominating the return, or the list is modified after "
                   "sorting): rotate() then renames in the wrong order and overwrites retained logs", witness=g.describe(w))
     apps = [c for n, c in node_calls(g, lambda c: call_name(c) == res + ".append")]
-    ctx.check(bool(apps) and all(isinstance(r_ := resolve(c.args[0], f), ast.Call) and call_name(r_) == "int" for c in apps), "order/listLogs-numeric", q,
+    def int_leaves(c):
+        return leaf_values(f, c.args[0])
+    numeric = lambda v: (isinstance(v, ast.Call) and call_name(v) == "int") or (isinstance(v, ast.Constant) and isinstance(v.value, int) and not isinstance(v.value, bool))
+    ctx.check(bool(apps) and all(numeric(v) for c in apps for v, _, _ in int_leaves(c)), "order/listLogs-numeric", q,
               "identifiers are not collected as integers: the sort is lexicographic ('10' < '2') and logs are rotated out of order")
     for c in apps:
-        r_ = resolve(c.args[0], f)
-        ok = isinstance(r_, ast.Call) and r_.args and "split('.')[-1]" in src(r_.args[0])
-        ctx.check(ok, "order/listLogs-identifier-is-last-component", ctx.construct(q, c), "the identifier is not the last dot-separated component of the file name")
+        calls_ = [v for v, _, _ in int_leaves(c) if isinstance(v, ast.Call)]
+        ok = bool(calls_) and all(v.args and "split('.')[-1]" in rsrc(v.args[0], f) for v in calls_)
+        ctx.check(ok, "order/listLogs-identifier-is-last-component", ctx.construct(q, "<list>.append(<identifier>)"), "the identifier is not the last dot-separated component of the file name")
     globs = [c for c in walk_local(f) if isinstance(c, ast.Call) and call_name(c) == "glob.glob"]
     ctx.check(len(globs) == 1 and _render(globs[0].args[0], {}) == "P.*", "order/listLogs-sees-every-rotated-file", q, "listLogs() does not glob '<path>.*'")
 
@@ -243,7 +248,13 @@ def _s_write(ctx, S):
     g = ctx.cfg(f)
     q = QB + ".write"
     data = params(f)[1]
-    wr = [n for n, c in node_calls(g, lambda c: call_name(c) == "self._file.write" and c.args and src(c.args[0]) == data)]
+    # what is written is the data itself or its UTF-8 encoding - through whatever local it travels
+    def is_data(v):
+        return (isinstance(v, ast.Name) and v.id == data) or \
+            (isinstance(v, ast.Call) and call_attr(v) == "encode" and isinstance(v.func, ast.Attribute) and src(v.func.value) == data)
+    wcalls = [(n, c) for n, c in node_calls(g, lambda c: call_name(c) == "self._file.write" and len(c.args) == 1)
+              if all(is_data(v) for v, _, _ in leaf_values(f, c.args[0]))]
+    wr = [n for n, c in wcalls]
     ctx.check(len(wr) == 1 and g.must_pass([g.entry], wr, exc=False) is None, "write/data-written-once", q, "write() does not write the data exactly once on every path")
     tests = g.ids(lambda n: n.kind == "test" and src(n.ast) == "self.shouldRotate()")
     rots = [n for n, c in node_calls(g, lambda c: call_name(c) == "self.rotate")]
@@ -261,9 +272,18 @@ def _s_write(ctx, S):
         ctx.check(bool(fl) and g.must_precede(fl, [r], exc=False) is None, "write/flush-before-rotate", ctx.construct(q, "self.flush()"), "the file is not flushed before rotation")
         for w_ in wr:
             ctx.check(g.path([w_], [r], edge_ok=no_exc) is None, "write/rotates-before-writing", ctx.construct(q, "rotate after write"), "rotation happens after the write")
-    enc = [n for n in walk_local(f) if isinstance(n, ast.Assign) and src(n.targets[0]) == data and "encode(" in src(n.value)]
-    ctx.check(bool(enc) and "utf" in src(enc[0].value).lower(), "write/text-encoded", q, "text is not encoded as UTF-8 before writing")
-
+    encs = [(v, chain) for n, c in wcalls for v, _, chain in leaf_values(f, c.args[0]) if isinstance(v, ast.Call) and call_attr(v) == "encode"]
+    ok_enc = bool(encs) and all(v.args and "utf" in src(v.args[0]).lower().replace("-", "") for v, _ in encs)
+    # the encoding applies exactly to text: the statement that encodes is guarded by isinstance(data, str)
+    for v, chain in encs:
+        st_ = next((x for x in [getattr(v, "_parent", None)] + list(chain) if isinstance(x, ast.stmt)), None)
+        p_ = v
+        while st_ is None and p_ is not None:
+            p_ = getattr(p_, "_parent", None)
+            st_ = p_ if isinstance(p_, ast.stmt) else None
+        nodes_ = [x.id for x in g.nodes if x.ast is st_ and g.reachable(x.id)] if st_ is not None else []
+        ok_enc = ok_enc and bool(nodes_) and all(g.guarded(x, lambda e: src(e) in (f"isinstance({data}, str)", f"type({data}) is str", f"type({data}) == str"), True) for x in nodes_)
+    ctx.check(ok_enc, "write/text-encoded", q, "text is not encoded as UTF-8 (exactly when the data is str) before writing")
 
 
 def _s_should_rotate(ctx, S):
@@ -277,13 +297,15 @@ def _s_should_rotate(ctx, S):
         v = st.value if isinstance(st, ast.Return) else None
         if v is None or (isinstance(v, ast.Constant) and not v.value):
             continue        # answers "do not rotate"
+        if any(src(t) == src(v) and lab == "F" for t, lab in edge_asserts(g, x)):
+            continue        # returns a value the dominating guard has just found falsy: "do not rotate"
         nret += 1
         conj = list(v.values) if isinstance(v, ast.BoolOp) and isinstance(v.op, ast.And) else [v]
         forms = [lincmp(c) for c in conj] + [lincmp(t, negate=(lab == "F")) for t, lab in edge_asserts(g, x)]
         implied = any(fm is not None and dict(fm[0]) == want and fm[1] >= 0 for fm in forms)
         ctx.check(implied, "boundary/rotated-file-at-least-rotateLength", ctx.construct(q, st),
                   f"shouldRotate() can be true while size < rotateLength ({src(v)}): a file shorter than the rotation length is rotated")
-        truthy_len = any(src(c) == "self.rotateLength" for c in conj) or any(src(t) == "self.rotateLength" and lab == "T" for t, lab in edge_asserts(g, x)) or \
+        truthy_len = any(src(c) in ("self.rotateLength", "bool(self.rotateLength)") for c in conj) or any(src(t) == "self.rotateLength" and lab == "T" for t, lab in edge_asserts(g, x)) or \
             any("self.rotateLength is not None" in src(c) for c in conj) or any(src(t) == "self.rotateLength is not None" and lab == "T" for t, lab in edge_asserts(g, x)) or \
             any(src(t) == "self.rotateLength is None" and lab == "F" for t, lab in edge_asserts(g, x))
         ctx.check(truthy_len, "boundary/rotation-disabled-when-no-length", ctx.construct(q, st),
@@ -387,6 +409,7 @@ def _s_body(ctx, S):
 
 
 def check(ctx):
+    normalise(ctx, {LOG: ["_openFile"]}, scopes={LOG: ["BaseLogFile", "LogFile"]})
     run_sections(ctx, [("listLogs", _s_listlogs), ("rotate", _s_rotate), ("BaseLogFile.write", _s_write), ("shouldRotate", _s_should_rotate), ("size", _s_size),
                        ("open", _s_open), ("body-entered", _s_body)])
 
@@ -445,6 +468,24 @@ SILENT = [
            "        self.maxRotatedFiles = maxRotatedFiles\n\n    def _openFile(self):\n        BaseLogFile._openFile(self)\n        self.size = self._file.tell()\n",
            "        self.maxRotatedFiles = maxRotatedFiles\n        self.size = self._file.tell()\n\n    def reopen(self):\n        BaseLogFile.reopen(self)\n        self.size = self._file.tell()\n",
            more=[(LOG, "        os.rename(self.path, \"%s.1\" % self.path)\n        self._openFile()\n", "        os.rename(self.path, \"%s.1\" % self.path)\n        self._openFile()\n        self.size = 0\n")]),
+    Silent("shouldRotate-explicit-falsy-guard", LOG, "        return self.rotateLength and self.size >= self.rotateLength",
+           "        if not self.rotateLength:\n            return self.rotateLength\n        return self.rotateLength <= self.size"),
+    Silent("write-encodes-into-a-second-local", LOG, "        if isinstance(data, str):\n            data = data.encode(\"utf8\")\n        self._file.write(data)",
+           "        if not isinstance(data, str):\n            payload = data\n        else:\n            payload = data.encode(\"utf8\")\n        self._file.write(payload)"),
     Silent("branches-swapped", LOG, "            if self.maxRotatedFiles is not None and i >= self.maxRotatedFiles:\n                os.remove(\"%s.%d\" % (self.path, i))\n            else:\n                os.rename(\"%s.%d\" % (self.path, i), \"%s.%d\" % (self.path, i + 1))",
            "            if self.maxRotatedFiles is None or i < self.maxRotatedFiles:\n                os.rename(\"%s.%d\" % (self.path, i), \"%s.%d\" % (self.path, i + 1))\n            else:\n                os.remove(\"%s.%d\" % (self.path, i))"),
+    Silent("rotation-steps-in-private-helpers", LOG,
+           "        logs = self.listLogs()\n        logs.reverse()\n        for i in logs:\n            if self.maxRotatedFiles is not None and i >= self.maxRotatedFiles:\n                os.remove(\"%s.%d\" % (self.path, i))\n            else:\n                os.rename(\"%s.%d\" % (self.path, i), \"%s.%d\" % (self.path, i + 1))\n        self._file.close()\n        os.rename(self.path, \"%s.1\" % self.path)\n        self._openFile()\n",
+           "        self._shiftOlderLogs()\n        self._file.close()\n        os.rename(self.path, self._rotatedName(1))\n        self._openFile()\n\n    def _rotatedName(self, identifier):\n        return \"%s.%d\" % (self.path, identifier)\n\n"
+           "    def _shiftOlderLogs(self):\n        for i in reversed(self.listLogs()):\n            beyondLimit = self.maxRotatedFiles is not None and i >= self.maxRotatedFiles\n            if beyondLimit:\n                os.remove(self._rotatedName(i))\n                continue\n            os.rename(self._rotatedName(i), self._rotatedName(i + 1))\n"),
+    Silent("writability-in-a-temporary", LOG, "        if not (os.access(self.directory, os.W_OK) and os.access(self.path, os.W_OK)):\n            return\n        logs = self.listLogs()",
+           "        writable = os.access(self.directory, os.W_OK) and os.access(self.path, os.W_OK)\n        if not writable:\n            return\n        logs = self.listLogs()"),
+    Silent("rotate-if-due-helper", LOG, "        if self.shouldRotate():\n            self.flush()\n            self.rotate()\n        if isinstance(data, str):", "        self._rotateIfDue()\n        if isinstance(data, str):",
+           more=[(LOG, "    def flush(self):\n        \"\"\"\n        Flush the file.", "    def _rotateIfDue(self):\n        if not self.shouldRotate():\n            return\n        self.flush()\n        self.rotate()\n\n    def flush(self):\n        \"\"\"\n        Flush the file.")]),
+    Silent("identifier-parsing-helper", LOG, "            try:\n                counter = int(name.split(\".\")[-1])\n                if counter:\n                    result.append(counter)\n            except ValueError:\n                pass\n",
+           "            counter = self._identifierOf(name)\n            if counter:\n                result.append(counter)\n",
+           more=[(LOG, "    def __getstate__(self):\n        state = BaseLogFile.__getstate__(self)\n        del state[\"size\"]", "    def _identifierOf(self, name):\n        try:\n            return int(name.split(\".\")[-1])\n        except ValueError:\n            return 0\n\n    def __getstate__(self):\n        state = BaseLogFile.__getstate__(self)\n        del state[\"size\"]")]),
+    Silent("rotate-length-in-a-temporary", LOG, "        return self.rotateLength and self.size >= self.rotateLength", "        limit = self.rotateLength\n        return bool(limit) and self.size >= limit"),
+    Silent("exists-test-in-a-temporary", LOG, "        if os.path.exists(self.path):\n            self._file = cast(BinaryIO, open(self.path, \"rb+\", 0))\n            self._file.seek(0, 2)\n        else:",
+           "        alreadyThere = os.path.exists(self.path)\n        if alreadyThere:\n            self._file = cast(BinaryIO, open(self.path, \"rb+\", 0))\n            self._file.seek(0, os.SEEK_END)\n        else:"),
 ]
